@@ -29,7 +29,7 @@
 From Coq Require Import ZArith List Bool PArith.
 From Tickit Require Import LifeDefs LifeLemmas LifeInv LifeClose LifeQueue LifeDestroy LifeFate LifeSpec LifeProofs LifeAgree LifeWitness LifePenDefs LifePen.
 From Tickit Require BindDefs LifeBindDefs LifeBindSim LifeBindSafe.
-From Tickit Require Import LifeSpecEv LifeAgreeEv LifeEvents LifeFuel.
+From Tickit Require Import LifeSpecEv LifeAgreeEv LifeEvents LifeFuel LifeBridge.
 Import ListNotations.
 Local Open Scope Z_scope.
 
@@ -150,6 +150,14 @@ Theorem C08_events_nonvacuous : exists h,
   (6 <= length (filter (fun o => match o with OFrameRef _ => true | _ => false end) (tr h)))%nat.
 Proof. exact events_nonvacuous. Qed.
 Print Assumptions C08_events_nonvacuous.
+
+(* the two disciplines -- destruction predicted at the client's last unref (LifeSpec.v, the oracle of the check) and
+   destruction observed when the last reference of either kind goes (LifeSpecEv.v) -- accept the same clients on every
+   trace without frame references, in particular on every event-free history *)
+Theorem C08_disciplines_agree : forall l, forallb is_client l = true ->
+  (match echeck e0 l with Some _ => true | None => false end) = wf_client l.
+Proof. exact disciplines_agree. Qed.
+Print Assumptions C08_disciplines_agree.
 
 (* FUEL.  More fuel never changes a result: a run that does not stop for lack of fuel gives the same verdict with any
    larger fuel (every function of the model, the event dispatch included; fm_dispatch, fm_life, ...) *)
